@@ -157,6 +157,14 @@ class BV:
             return z3.Bool(f"ret!{name}!{k}")
         return z3.BitVec(f"ret!{name}!{k}", width(ty))
 
+    def overflow_op(self, arith, signed, ty, a, b):
+        w = width(ty)
+        ext = (lambda x: z3.SignExt(w, x)) if signed else (lambda x: z3.ZeroExt(w, x))
+        wide = {"add": ext(a) + ext(b), "sub": ext(a) - ext(b), "mul": ext(a) * ext(b)}[arith]
+        res = z3.Extract(w - 1, 0, wide)
+        back = ext(res)
+        return res, back != wide
+
 
 # ------------------------------------------------------------------------------------------ INT
 
@@ -382,12 +390,28 @@ class INT:
             return None
         return self.param(ty, f"ret!{name}!{k}")
 
+    def overflow_op(self, arith, signed, ty, a, b):
+        """values are the SIGNED readings of the bit patterns; the exact result is taken over the
+        signed or unsigned readings, the overflow bit says whether it fits, the value wraps"""
+        w = width(ty)
+        a = self.need_plain(a, "overflow intrinsic")
+        b = self.need_plain(b, "overflow intrinsic")
+        if signed:
+            x, y = a, b
+            lo, hi = -(2 ** (w - 1)), 2 ** (w - 1)
+        else:
+            x, y = self.unsigned(a, w), self.unsigned(b, w)
+            lo, hi = 0, 2 ** w
+        exact = {"add": x + y, "sub": x - y, "mul": x * y}[arith]
+        ovf = z3.Or(exact < lo, exact >= hi)
+        return self.wrap(exact, w), ovf
+
 
 # ------------------------------------------------------------------------------------------ paths
 
 
 def has_hard_arith(func):
-    return any(i.op in ("mul", "sdiv", "srem", "udiv", "urem") for b in func.blocks.values() for i in b)
+    return any(i.op in ("mul", "sdiv", "srem", "udiv", "urem") or (i.op == "ovf" and i.arith == "mul") for b in func.blocks.values() for i in b)
 
 
 def run(func, backend, max_paths=256):
@@ -449,6 +473,14 @@ def run(func, backend, max_paths=256):
                 env[ins.dest] = backend.select(val(env, "i1", ins.c), ins.ty, val(env, ins.ty, ins.a), val(env, ins.ty, ins.b))
             elif op == "freeze":
                 env[ins.dest] = val(env, ins.ty, ins.a)
+            elif op == "ovf":
+                # llvm.{s,u}{add,sub,mul}.with.overflow: (wrapped result, overflow bit); never UB
+                env[ins.dest] = ("agg",) + tuple(backend.overflow_op(ins.arith, ins.signed, ins.ty, val(env, ins.ty, ins.a), val(env, ins.ty, ins.b)))
+            elif op == "extractvalue":
+                agg = env.get(ins.agg)
+                if not (isinstance(agg, tuple) and agg and agg[0] == "agg"):
+                    raise Unsupported("extractvalue of a value that is not an overflow-intrinsic result")
+                env[ins.dest] = agg[1 + ins.idx]
             elif op == "load_global":
                 env[ins.dest] = ("global", ins.name)
             elif op == "call":
